@@ -162,6 +162,8 @@ type Run struct {
 	onces map[*Value]bool
 	curFrame *frame
 	stubs    map[string]bool
+	lazyAxioms []*Term
+	lazyAxiomKeys []*Term
 	timersQuiet bool
 	realBacked map[string]bool
 	stubFuncs map[string]Value
@@ -594,11 +596,33 @@ func (r *Run) check(fr *frame, c *Term, label string) {
 		r.decisions = append(r.decisions, Decision{b: true})
 		return
 	}
-	if v, ok := r.evalModel(c); ok && !v {
+	if v, ok := r.evalModel(c); ok && !v && len(r.lazyAxioms) == 0 {
 		feasBad, mBad = true, r.model
 	} else {
 		r.syncSolver()
+		r.w.solver.ctx = "check:" + label
 		nc := r.tt.Not(c)
+		// axioms needed by assertion queries only (see math.Sqrt): those whose function
+		// application occurs in the asserted condition
+		if len(r.lazyAxioms) > 0 {
+			seen := map[*Term]bool{}
+			var walk func(t *Term)
+			walk = func(t *Term) {
+				if t == nil || seen[t] {
+					return
+				}
+				seen[t] = true
+				walk(t.a)
+				walk(t.b)
+				walk(t.c)
+			}
+			walk(c)
+			for i, ax := range r.lazyAxioms {
+				if seen[r.lazyAxiomKeys[i]] {
+					nc = r.tt.And(nc, ax)
+				}
+			}
+		}
 		res := r.w.solver.CheckWith(nc)
 		switch res {
 		case Sat:
